@@ -1,25 +1,28 @@
 /-
 Outcome classes of the type-level layout functions of Model/Layout.lean (C08; also usable by C13):
 
-* `alignedAttrBad_iff`   — the regenerated guard of `aligned(n)` (`n < 0 || n > (1 << 28) || (n & (n - 1))`, int64_t two's
-                           complement) rejects exactly the `n` that are neither 0 nor a power of two ≤ 2^28;
+* `alignedAttrBad_iff`   — the regenerated guard of `aligned(n)` and of `_Alignas(n)` (`n < 0 || n > (1 << 28) || (n & (n - 1))`,
+                           int64_t two's complement) rejects exactly the `n` that are neither 0 nor a power of two ≤ 2^28;
 * `structLayout_total` / `unionLayout_total` — the loops of struct_decl / union_decl return a layout with positive
                            alignment whenever the initial alignment and the member alignments are positive and every
                            bit-field has a type of positive size (no zero divisor);
-* `sizeAlign_inv` …      — by mutual induction over type descriptions: alignments are positive, `attr->align` ≥ 0, the
-                           members handed to the loops are `MemsGood`; hence **no type description reaches
-                           `TyFail.divByZero`** (`sizeAlign_ne_divByZero`, `layout_ne_divByZero`, `varAlign_ne_divByZero`);
-* `Ty.accepted`          — structural predicate "every `aligned(n)` is 0 or a power of two ≤ 2^28 and every bit-field has an
+* `sizeAlign_inv` …      — by mutual induction over type descriptions: every alignment lies in (0, 2^28], `attr->align` in
+                           [0, 2^28], the members handed to the loops are `MemsGood`; hence **no type description
+                           reaches `TyFail.divByZero`** (`sizeAlign_ne_divByZero`, `layout_ne_divByZero`,
+                           `varAlign_ne_divByZero`), and the divisors computed in a 32-bit `int` (`int32`) are not zero
+                           either (`divisors_int32`: 2^28 * 8 wraps to -2^31, nothing larger reaches the loops);
+* `Ty.accepted`          — structural predicate "every `aligned(n)`/`_Alignas(n)` is 0 or a power of two ≤ 2^28 and every bit-field has an
                            integer declared type, at every depth (operands of `_Alignas(type-name)` included)";
                            `layout_ok_iff`: a layout is returned iff `accepted`, otherwise a diagnostic.
 
-The arithmetic is the model's unbounded `Int`.  (The real `struct_decl` computes `mem->align * 8` in a C `int`:
-`_Alignas(536870912)` on a struct member wraps to a zero divisor there; that input is outside the `Int` idealisation,
-see DESIGN/known findings.)
+The arithmetic is the model's unbounded `Int`; `divisors_int32` closes the gap to the C `int` for the divisors (before
+fix 33adb94 `_Alignas(536870912)` on a struct member made `mem->align * 8` wrap to a zero divisor: the guard of
+`_Alignas(constant)` now bounds every alignment by 2^28).
 
 Core Lean only.
 -/
 import ChibiVerif.Model.Layout
+import ChibiVerif.Model.Layout32
 
 namespace ChibiVerif.Layout
 open ChibiVerif.Gen.Declspec
@@ -65,7 +68,8 @@ theorem pow2le28_iff (n : Int) : pow2le28 n = true ↔ ∃ k, k ≤ 28 ∧ n = (
   · rintro ⟨k, hk, rfl⟩; exact ⟨k, by omega, rfl⟩
   · rintro ⟨k, hk, rfl⟩; exact ⟨k, by omega, rfl⟩
 
-theorem pow2le28_good : ∀ k ∈ List.range 29, alignedAttrBad ((2 : Int) ^ k) = false ∧ (0 : Int) < (2 : Int) ^ k := by
+theorem pow2le28_good : ∀ k ∈ List.range 29,
+    alignedAttrBad ((2 : Int) ^ k) = false ∧ (0 : Int) < (2 : Int) ^ k ∧ (2 : Int) ^ k ≤ 268435456 := by
   decide
 
 theorem alignedAttrBad_zero : alignedAttrBad 0 = false := by decide
@@ -116,7 +120,27 @@ theorem alignedAttrBad_iff (n : Int) : alignedAttrBad n = false ↔ (n = 0 ∨ p
 theorem pow2le28_pos {n : Int} (h : pow2le28 n = true) : 0 < n := by
   simp only [pow2le28, List.any_eq_true, beq_iff_eq] at h
   obtain ⟨k, hk, rfl⟩ := h
-  exact (pow2le28_good k hk).2
+  exact (pow2le28_good k hk).2.1
+
+theorem pow2le28_le {n : Int} (h : pow2le28 n = true) : n ≤ 268435456 := by
+  simp only [pow2le28, List.any_eq_true, beq_iff_eq] at h
+  obtain ⟨k, hk, rfl⟩ := h
+  exact (pow2le28_good k hk).2.2
+
+/-- the guard of `_Alignas(constant)` in declspec is the guard of `aligned(n)` -/
+theorem alignasConstBad_eq (n : Int) : alignasConstBad n = alignedAttrBad n := rfl
+
+/-- largest alignment any type or member can have: 2^28 -/
+def MAXALIGN : Int := 268435456
+
+/-- the divisors `mem->align * 8` / `ty->align * 8` / `mem->ty->size * 8` of struct_decl, computed in a 32-bit `int`, are not
+    zero for operands in (0, 2^28] (2^28 * 8 = 2^31 wraps to -2^31, not to 0; nothing larger reaches the loops) -/
+theorem int32_mul8_ne_zero {x : Int} (h1 : 0 < x) (h2 : x ≤ MAXALIGN) : int32 (x * 8) ≠ 0 := by
+  unfold int32 MAXALIGN at *; omega
+
+/-- below 2^28 the product does not overflow at all -/
+theorem int32_mul8_exact {x : Int} (h1 : 0 ≤ x) (h2 : x < MAXALIGN) : int32 (x * 8) = x * 8 := by
+  unfold int32 MAXALIGN at *; omega
 
 /-- `attribute_list` on one `aligned(n)`, exactly: nothing requested for `none` and 0, `n` for 2^0 … 2^28, else the diagnostic -/
 theorem alignAttr_eq (cur : Int) (al : Option Int) :
@@ -140,7 +164,8 @@ theorem alignAttr_eq (cur : Int) (al : Option Int) :
                      · exact absurd h hp
         simp [this, h0, hp]
 
-theorem alignAttr_pos {cur : Int} (hc : 0 < cur) {al : Option Int} {a : Int} (h : alignAttr cur al = .ok a) : 0 < a := by
+theorem alignAttr_pos {cur : Int} (hc : 0 < cur ∧ cur ≤ MAXALIGN) {al : Option Int} {a : Int}
+    (h : alignAttr cur al = .ok a) : 0 < a ∧ a ≤ MAXALIGN := by
   rw [alignAttr_eq] at h
   cases al with
   | none => simp only [Except.ok.injEq] at h; omega
@@ -150,7 +175,9 @@ theorem alignAttr_pos {cur : Int} (hc : 0 < cur) {al : Option Int} {a : Int} (h 
     · simp only [h0, if_true, Except.ok.injEq] at h; omega
     · by_cases hp : pow2le28 n = true
       · simp only [h0, hp, if_true, if_false, Except.ok.injEq] at h
-        have := pow2le28_pos hp; omega
+        have := pow2le28_pos hp
+        have := pow2le28_le hp
+        unfold MAXALIGN at *; omega
       · simp [h0, hp] at h
 
 theorem alignAttr_ne_div (cur : Int) (al : Option Int) : alignAttr cur al ≠ .error .divByZero := by
@@ -160,8 +187,9 @@ theorem alignAttr_ne_div (cur : Int) (al : Option Int) : alignAttr cur al ≠ .e
 
 /-! ### the loops of struct_decl / union_decl never divide by zero on good member lists -/
 
-/-- what `struct_members` hands to the loops: positive member alignment; a bit-field has a type of positive size -/
-def MemsGood (l : List Mem) : Prop := ∀ m ∈ l, 0 < m.align ∧ (m.bitWidth.isSome = true → 0 < m.size)
+/-- what `struct_members` hands to the loops: member alignment in (0, 2^28]; a bit-field has a type of size in (0, 8] -/
+def MemsGood (l : List Mem) : Prop :=
+  ∀ m ∈ l, (0 < m.align ∧ m.align ≤ MAXALIGN) ∧ (m.bitWidth.isSome = true → 0 < m.size ∧ m.size ≤ 8)
 
 theorem alignToE_ok {n a : Int} (h : a ≠ 0) : alignToE n a = .ok (alignTo n a) := by
   simp [alignToE, h]
@@ -173,6 +201,15 @@ theorem stepAlign_ge (packed : Bool) (a : Int) (m : Mem) : a ≤ stepAlign packe
   · split
     · rename_i h; simp only [Bool.and_eq_true, Bool.not_eq_true', decide_eq_true_eq] at h; omega
     · exact Int.le_refl _
+
+theorem stepAlign_le (packed : Bool) (a : Int) (m : Mem) (B : Int) (ha : a ≤ B) (hm : m.align ≤ B) :
+    stepAlign packed a m ≤ B := by
+  unfold stepAlign
+  split
+  · exact ha
+  · split
+    · exact hm
+    · exact ha
 
 theorem placeMember_total (packed : Bool) (bits : Int) (m : Mem) (ha : 0 < m.align)
     (hs : m.bitWidth.isSome = true → 0 < m.size) : ∃ r, placeMember packed bits m = .ok r := by
@@ -193,23 +230,23 @@ theorem placeMember_total (packed : Bool) (bits : Int) (m : Mem) (ha : 0 < m.ali
     · simp only [hw, if_false, hsz]
       exact ⟨_, rfl⟩
 
-theorem structLoop_total (packed : Bool) : ∀ (ms : List Mem) (bits align : Int), MemsGood ms →
-    ∃ b a ps, structLoop packed bits align ms = .ok (b, a, ps) ∧ align ≤ a
-  | [], bits, align, _ => ⟨bits, align, [], rfl, Int.le_refl _⟩
-  | m :: ms, bits, align, hg => by
+theorem structLoop_total (packed : Bool) : ∀ (ms : List Mem) (bits align : Int), MemsGood ms → align ≤ MAXALIGN →
+    ∃ b a ps, structLoop packed bits align ms = .ok (b, a, ps) ∧ align ≤ a ∧ a ≤ MAXALIGN
+  | [], bits, align, _, hb => ⟨bits, align, [], rfl, Int.le_refl _, hb⟩
+  | m :: ms, bits, align, hg, hb => by
     have hm := hg m (List.mem_cons_self ..)
-    obtain ⟨⟨b, p⟩, hp⟩ := placeMember_total packed bits m hm.1 hm.2
-    obtain ⟨b', a', ps, hl, hle⟩ := structLoop_total packed ms b (stepAlign packed align m)
-      (fun x hx => hg x (List.mem_cons_of_mem _ hx))
-    refine ⟨b', a', p :: ps, ?_, Int.le_trans (stepAlign_ge packed align m) hle⟩
+    obtain ⟨⟨b, p⟩, hp⟩ := placeMember_total packed bits m hm.1.1 (fun h => (hm.2 h).1)
+    obtain ⟨b', a', ps, hl, hle, hle2⟩ := structLoop_total packed ms b (stepAlign packed align m)
+      (fun x hx => hg x (List.mem_cons_of_mem _ hx)) (stepAlign_le packed align m MAXALIGN hb hm.1.2)
+    refine ⟨b', a', p :: ps, ?_, Int.le_trans (stepAlign_ge packed align m) hle, hle2⟩
     simp only [structLoop, structStep, hp, hl]
 
-/-- `struct_decl` on a good member list with a positive initial alignment returns a layout of positive alignment -/
-theorem structLayout_total (packed : Bool) (a0 : Int) (ms : List Mem) (ha : 0 < a0) (hg : MemsGood ms) :
-    ∃ l, structLayout packed a0 ms = .ok l ∧ 0 < l.align := by
-  obtain ⟨b, a, ps, hl, hle⟩ := structLoop_total packed ms 0 a0 hg
+/-- `struct_decl` on a good member list with an initial alignment in (0, 2^28] returns a layout with alignment in (0, 2^28] -/
+theorem structLayout_total (packed : Bool) (a0 : Int) (ms : List Mem) (ha : 0 < a0 ∧ a0 ≤ MAXALIGN) (hg : MemsGood ms) :
+    ∃ l, structLayout packed a0 ms = .ok l ∧ 0 < l.align ∧ l.align ≤ MAXALIGN := by
+  obtain ⟨b, a, ps, hl, hle, hle2⟩ := structLoop_total packed ms 0 a0 hg ha.2
   have : a * 8 ≠ 0 := by omega
-  refine ⟨{ size := Int.tdiv (alignTo b (a * 8)) 8, align := a, placed := ps }, ?_, by show 0 < a; omega⟩
+  refine ⟨{ size := Int.tdiv (alignTo b (a * 8)) 8, align := a, placed := ps }, ?_, by show 0 < a; omega, hle2⟩
   simp only [structLayout, hl, alignToE_ok this]
 
 theorem unionStep_ge (packed : Bool) (s a : Int) (m : Mem) : a ≤ (unionStep packed s a m).2 := by
@@ -227,29 +264,54 @@ theorem unionLoop_ge (packed : Bool) : ∀ (ms : List Mem) (s a : Int), a ≤ (u
     simp only [unionLoop]
     exact Int.le_trans (unionStep_ge packed s a m) (unionLoop_ge packed ms _ _)
 
-/-- `union_decl` with a positive initial alignment returns a layout of positive alignment (any member list) -/
-theorem unionLayout_total (packed : Bool) (a0 : Int) (ms : List Mem) (ha : 0 < a0) :
-    ∃ l, unionLayout packed a0 ms = .ok l ∧ 0 < l.align := by
+theorem unionStep_le (packed : Bool) (s a : Int) (m : Mem) (B : Int) (ha : a ≤ B) (hm : m.align ≤ B) :
+    (unionStep packed s a m).2 ≤ B := by
+  unfold unionStep
+  split
+  · exact ha
+  · simp only
+    split
+    · exact hm
+    · exact ha
+
+theorem unionLoop_le (packed : Bool) (B : Int) : ∀ (ms : List Mem) (s a : Int), a ≤ B → (∀ m ∈ ms, m.align ≤ B) →
+    (unionLoop packed s a ms).2 ≤ B
+  | [], _, a, ha, _ => ha
+  | m :: ms, s, a, ha, hm => by
+    simp only [unionLoop]
+    exact unionLoop_le packed B ms _ _ (unionStep_le packed s a m B ha (hm m (List.mem_cons_self ..)))
+      (fun x hx => hm x (List.mem_cons_of_mem _ hx))
+
+/-- `union_decl` with an initial alignment in (0, 2^28] returns a layout with alignment in (0, 2^28] (member alignments ≤ 2^28) -/
+theorem unionLayout_total (packed : Bool) (a0 : Int) (ms : List Mem) (ha : 0 < a0 ∧ a0 ≤ MAXALIGN)
+    (hm : ∀ m ∈ ms, m.align ≤ MAXALIGN) :
+    ∃ l, unionLayout packed a0 ms = .ok l ∧ 0 < l.align ∧ l.align ≤ MAXALIGN := by
+  have hle := unionLoop_le packed MAXALIGN ms ((STRUCT_INIT_SIZE : Nat) : Int) a0 ha.2 hm
   have hge := unionLoop_ge packed ms ((STRUCT_INIT_SIZE : Nat) : Int) a0
   have hne : (unionLoop packed ((STRUCT_INIT_SIZE : Nat) : Int) a0 ms).2 ≠ 0 := by omega
   refine ⟨{ size := alignTo (unionLoop packed ((STRUCT_INIT_SIZE : Nat) : Int) a0 ms).1 (unionLoop packed ((STRUCT_INIT_SIZE : Nat) : Int) a0 ms).2,
             align := (unionLoop packed ((STRUCT_INIT_SIZE : Nat) : Int) a0 ms).2,
             placed := ms.map fun _ => { offset := 0, bitOffset := 0 } }, ?_, ?_⟩
   · simp only [unionLayout, alignToE_ok hne]
-  · show 0 < (unionLoop packed ((STRUCT_INIT_SIZE : Nat) : Int) a0 ms).2
-    omega
+  · show 0 < (unionLoop packed ((STRUCT_INIT_SIZE : Nat) : Int) a0 ms).2 ∧ (unionLoop packed ((STRUCT_INIT_SIZE : Nat) : Int) a0 ms).2 ≤ MAXALIGN
+    exact ⟨by omega, hle⟩
 
 /-! ### type descriptions -/
 
-theorem prim_pos (t : TyName) : 0 < primSize t ∧ 0 < primAlign t := by
+theorem prim_pos (t : TyName) : 0 < primSize t ∧ 0 < primAlign t ∧ primAlign t ≤ MAXALIGN := by
   cases t <;> decide
 
+/-- the primitive types `is_integer` accepts have at most 8 bytes -/
+theorem prim_integer_size (t : TyName) (h : integerKinds.contains (primKind t) = true) : primSize t ≤ 8 := by
+  cases t <;> first | decide | exact absurd h (by decide)
+
 /-- what `is_integer` accepts has positive size (so `bits / (sz * 8)` is defined) -/
-theorem isInteger_size_pos (t : Ty) (h : t.isInteger = true) (s a : Int) (hs : t.sizeAlign = .ok (s, a)) : 0 < s := by
+theorem isInteger_size_pos (t : Ty) (h : t.isInteger = true) (s a : Int) (hs : t.sizeAlign = .ok (s, a)) :
+    0 < s ∧ s ≤ 8 := by
   cases t with
   | prim t =>
     simp only [Ty.sizeAlign, Except.ok.injEq, Prod.mk.injEq] at hs
-    rw [← hs.1]; exact (prim_pos t).1
+    rw [← hs.1]; exact ⟨(prim_pos t).1, prim_integer_size t h⟩
   | enum =>
     simp only [Ty.sizeAlign, Except.ok.injEq, Prod.mk.injEq] at hs
     rw [← hs.1]; decide
@@ -259,13 +321,23 @@ theorem isInteger_size_pos (t : Ty) (h : t.isInteger = true) (s a : Int) (hs : t
   | struct _ _ _ => exact absurd (h : integerKinds.contains "TY_STRUCT" = true) (by decide : ¬ integerKinds.contains "TY_STRUCT" = true)
   | union _ _ _ => exact absurd (h : integerKinds.contains "TY_UNION" = true) (by decide : ¬ integerKinds.contains "TY_UNION" = true)
 
-theorem alignasCombine_nonneg (acc new : Int) (h : 0 ≤ acc) : 0 ≤ alignasCombine acc new := by
+theorem alignasCombine_bounds (acc new : Int) (h : 0 ≤ acc ∧ acc ≤ MAXALIGN) (hn : new ≤ MAXALIGN) :
+    0 ≤ alignasCombine acc new ∧ alignasCombine acc new ≤ MAXALIGN := by
   unfold alignasCombine; split <;> omega
 
-theorem memberAlign_pos (attr a : Int) (h1 : 0 ≤ attr) (h2 : 0 < a) : 0 < memberAlign attr a := by
+theorem memberAlign_pos (attr a : Int) (h1 : 0 ≤ attr ∧ attr ≤ MAXALIGN) (h2 : 0 < a ∧ a ≤ MAXALIGN) :
+    0 < memberAlign attr a ∧ memberAlign attr a ≤ MAXALIGN := by
   unfold memberAlign; split <;> omega
 
-theorem struct_init_pos : (0 : Int) < ((STRUCT_INIT_ALIGN : Nat) : Int) := by decide
+theorem struct_init_pos : (0 : Int) < ((STRUCT_INIT_ALIGN : Nat) : Int) ∧ ((STRUCT_INIT_ALIGN : Nat) : Int) ≤ MAXALIGN := by decide
+
+/-- a constant that passes the guard of `_Alignas(constant)` lies in [0, 2^28] -/
+theorem alignasConst_bounds {n : Int} (h : alignasConstBad n = false) : 0 ≤ alignasOfConst n ∧ alignasOfConst n ≤ MAXALIGN := by
+  rw [alignasConstBad_eq] at h
+  unfold alignasOfConst MAXALIGN
+  rcases (alignedAttrBad_iff n).1 h with h0 | hp
+  · omega
+  · have := pow2le28_pos hp; have := pow2le28_le hp; omega
 
 /-- outcome of a type-level function: never the SIGFPE, and a value satisfies `P` -/
 def Outcome {α : Type} (P : α → Prop) (r : Except TyFail α) : Prop :=
@@ -279,27 +351,27 @@ theorem Outcome.bind {α β : Type} {P : α → Prop} {Q : β → Prop} {r : Exc
   | ok a => exact hf a h
   | error e => exact h
 
-theorem Outcome.lift_struct {packed : Bool} {a0 : Int} {ms : List Mem} (ha : 0 < a0) (hg : MemsGood ms) :
-    Outcome (fun l : Layout => 0 < l.align) (liftFail (structLayout packed a0 ms)) := by
+theorem Outcome.lift_struct {packed : Bool} {a0 : Int} {ms : List Mem} (ha : 0 < a0 ∧ a0 ≤ MAXALIGN) (hg : MemsGood ms) :
+    Outcome (fun l : Layout => 0 < l.align ∧ l.align ≤ MAXALIGN) (liftFail (structLayout packed a0 ms)) := by
   obtain ⟨l, hl, hp⟩ := structLayout_total packed a0 ms ha hg
   rw [hl]; exact hp
 
-theorem Outcome.lift_union {packed : Bool} {a0 : Int} {ms : List Mem} (ha : 0 < a0) :
-    Outcome (fun l : Layout => 0 < l.align) (liftFail (unionLayout packed a0 ms)) := by
-  obtain ⟨l, hl, hp⟩ := unionLayout_total packed a0 ms ha
+theorem Outcome.lift_union {packed : Bool} {a0 : Int} {ms : List Mem} (ha : 0 < a0 ∧ a0 ≤ MAXALIGN) (hg : MemsGood ms) :
+    Outcome (fun l : Layout => 0 < l.align ∧ l.align ≤ MAXALIGN) (liftFail (unionLayout packed a0 ms)) := by
+  obtain ⟨l, hl, hp⟩ := unionLayout_total packed a0 ms ha (fun m hm => (hg m hm).1.2)
   rw [hl]; exact hp
 
 theorem Outcome.of_alignAttr (al : Option Int) :
-    Outcome (fun a : Int => 0 < a) (Layout.alignAttr ((STRUCT_INIT_ALIGN : Nat) : Int) al) := by
+    Outcome (fun a : Int => 0 < a ∧ a ≤ MAXALIGN) (Layout.alignAttr ((STRUCT_INIT_ALIGN : Nat) : Int) al) := by
   cases h : Layout.alignAttr ((STRUCT_INIT_ALIGN : Nat) : Int) al with
   | ok a => exact alignAttr_pos struct_init_pos h
   | error e => intro he; subst he; exact alignAttr_ne_div _ _ h
 
 mutual
-  theorem sizeAlign_inv : ∀ (t : Ty), Outcome (fun r : Int × Int => 0 < r.2) t.sizeAlign
+  theorem sizeAlign_inv : ∀ (t : Ty), Outcome (fun r : Int × Int => 0 < r.2 ∧ r.2 ≤ MAXALIGN) t.sizeAlign
     | .prim t => (prim_pos t).2
-    | .enum => by show (0 : Int) < ((ENUM_ALIGN : Nat) : Int); decide
-    | .ptr => by show (0 : Int) < ((PTR_ALIGN : Nat) : Int); decide
+    | .enum => by show (0 : Int) < ((ENUM_ALIGN : Nat) : Int) ∧ ((ENUM_ALIGN : Nat) : Int) ≤ MAXALIGN; decide
+    | .ptr => by show (0 : Int) < ((PTR_ALIGN : Nat) : Int) ∧ ((PTR_ALIGN : Nat) : Int) ≤ MAXALIGN; decide
     | .arr e n => by
       simp only [Ty.sizeAlign]
       exact (sizeAlign_inv e).bind (fun r hr => hr)
@@ -314,21 +386,25 @@ mutual
     | .union p al ms => by
       simp only [Ty.sizeAlign]
       refine (Outcome.of_alignAttr al).bind (fun a0 ha0 => ?_)
-      refine (toMems_inv ms).bind (fun mems _ => ?_)
-      exact (Outcome.lift_union ha0).bind (fun l hl => hl)
-  theorem eval_inv : ∀ (as : Aligns) (acc : Int), 0 ≤ acc → Outcome (fun r : Int => 0 ≤ r) (as.eval acc)
+      refine (toMems_inv ms).bind (fun mems hg => ?_)
+      exact (Outcome.lift_union ha0 hg).bind (fun l hl => hl)
+  theorem eval_inv : ∀ (as : Aligns) (acc : Int), 0 ≤ acc ∧ acc ≤ MAXALIGN →
+      Outcome (fun r : Int => 0 ≤ r ∧ r ≤ MAXALIGN) (as.eval acc)
     | .nil, acc, h => h
     | .const n rest, acc, h => by
       simp only [Aligns.eval]
-      exact eval_inv rest _ (alignasCombine_nonneg acc _ h)
+      by_cases hb : alignasConstBad n = true
+      · rw [if_pos hb]; intro he; cases he
+      · rw [if_neg hb]
+        exact eval_inv rest _ (alignasCombine_bounds acc _ h (alignasConst_bounds (by simpa using hb)).2)
     | .type t rest, acc, h => by
       simp only [Aligns.eval]
-      exact (sizeAlign_inv t).bind (fun r _ => eval_inv rest _ (alignasCombine_nonneg acc _ h))
+      exact (sizeAlign_inv t).bind (fun r hr => eval_inv rest _ (alignasCombine_bounds acc _ h hr.2))
   theorem toMems_inv : ∀ (ms : Members), Outcome MemsGood ms.toMems
     | .nil => by intro m hm; cases hm
     | .cons d as ty rest => by
       simp only [Members.toMems]
-      refine (eval_inv as 0 (Int.le_refl 0)).bind (fun attrAlign hattr => ?_)
+      refine (eval_inv as 0 (by decide)).bind (fun attrAlign hattr => ?_)
       have hty := sizeAlign_inv ty
       cases hs : ty.sizeAlign with
       | error e => rw [hs] at hty; exact hty
@@ -364,12 +440,12 @@ theorem sizeAlign_ne_divByZero (t : Ty) : t.sizeAlign ≠ .error .divByZero := b
   rw [h] at this
   exact this rfl
 
-theorem sizeAlign_align_pos {t : Ty} {s a : Int} (h : t.sizeAlign = .ok (s, a)) : 0 < a := by
+theorem sizeAlign_align_pos {t : Ty} {s a : Int} (h : t.sizeAlign = .ok (s, a)) : 0 < a ∧ a ≤ MAXALIGN := by
   have := sizeAlign_inv t
   rw [h] at this
   exact this
 
-theorem layout_inv (t : Ty) : Outcome (fun l : Layout => 0 < l.align) t.layout := by
+theorem layout_inv (t : Ty) : Outcome (fun l : Layout => 0 < l.align ∧ l.align ≤ MAXALIGN) t.layout := by
   cases t with
   | struct p al ms =>
     simp only [Ty.layout]
@@ -378,7 +454,7 @@ theorem layout_inv (t : Ty) : Outcome (fun l : Layout => 0 < l.align) t.layout :
   | union p al ms =>
     simp only [Ty.layout]
     refine (Outcome.of_alignAttr al).bind (fun a0 ha0 => ?_)
-    exact (toMems_inv ms).bind (fun mems _ => Outcome.lift_union ha0)
+    exact (toMems_inv ms).bind (fun mems hg => Outcome.lift_union ha0 hg)
   | prim t => simp only [Ty.layout]; exact (sizeAlign_inv (.prim t)).bind (fun r hr => hr)
   | enum => simp only [Ty.layout]; exact (sizeAlign_inv .enum).bind (fun r hr => hr)
   | ptr => simp only [Ty.layout]; exact (sizeAlign_inv .ptr).bind (fun r hr => hr)
@@ -396,10 +472,27 @@ theorem varAlign_ne_divByZero (as : Aligns) (ty : Ty) : varAlign as ty ≠ .erro
   intro h
   have : Outcome (fun _ : Int => True) (varAlign as ty) := by
     simp only [varAlign]
-    refine (eval_inv as 0 (Int.le_refl 0)).bind (fun _ _ => ?_)
+    refine (eval_inv as 0 (by decide)).bind (fun _ _ => ?_)
     exact (sizeAlign_inv ty).bind (fun _ _ => trivial)
   rw [h] at this
   exact this rfl
+
+/-- the member list `struct_members` builds, whenever it builds one, is good: alignments in (0, 2^28], bit-field types of
+    1 … 8 bytes -/
+theorem toMems_good {ms : Members} {l : List Mem} (h : ms.toMems = .ok l) : MemsGood l := by
+  have := toMems_inv ms
+  rw [h] at this
+  exact this
+
+/-- **the divisors of struct_decl in 32-bit `int` arithmetic**: for a good member list and a struct alignment in (0, 2^28]
+    none of `mem->ty->size * 8` (bit-fields), `mem->align * 8` (other members), `ty->align * 8` (final rounding) wraps to
+    zero, and the bit-field divisor does not overflow at all -/
+theorem divisors_int32 (l : List Mem) (hg : MemsGood l) (a : Int) (ha : 0 < a ∧ a ≤ MAXALIGN) :
+    (∀ m ∈ l, m.bitWidth.isSome = true → int32 (m.size * 8) = m.size * 8 ∧ m.size * 8 ≠ 0) ∧
+    (∀ m ∈ l, int32 (m.align * 8) ≠ 0) ∧ int32 (a * 8) ≠ 0 := by
+  refine ⟨fun m hm hb => ?_, fun m hm => int32_mul8_ne_zero (hg m hm).1.1 (hg m hm).1.2, int32_mul8_ne_zero ha.1 ha.2⟩
+  have := (hg m hm).2 hb
+  unfold int32; omega
 
 /-! ### which descriptions get a layout, which a diagnostic -/
 
@@ -409,7 +502,7 @@ def alignedAccepted : Option Int → Bool
   | some n => n == 0 || pow2le28 n
 
 mutual
-  /-- every `aligned(n)` is 0 or a power of two ≤ 2^28 and every bit-field has an integer declared type — at every depth,
+  /-- every `aligned(n)` and `_Alignas(n)` is 0 or a power of two ≤ 2^28 and every bit-field has an integer declared type — at every depth,
       operands of `_Alignas(type-name)` included -/
   def Ty.accepted : Ty → Bool
     | .prim _ => true
@@ -421,7 +514,7 @@ mutual
     | .union _ al ms => alignedAccepted al && ms.accepted
   def Aligns.accepted : Aligns → Bool
     | .nil => true
-    | .const _ rest => rest.accepted
+    | .const n rest => (n == 0 || pow2le28 n) && rest.accepted
     | .type t rest => t.accepted && rest.accepted
   def Members.accepted : Members → Bool
     | .nil => true
@@ -484,6 +577,7 @@ mutual
       have ih := toMems_isOk ms
       have ha := alignAttr_isOk ((STRUCT_INIT_ALIGN : Nat) : Int) al
       have ha2 := Outcome.of_alignAttr al
+      have hm2 := toMems_inv ms
       simp only [Ty.sizeAlign, Ty.accepted]
       cases h1 : alignAttr ((STRUCT_INIT_ALIGN : Nat) : Int) al with
       | error x => rw [h1] at ha; rw [← ha]; rfl
@@ -493,16 +587,30 @@ mutual
         cases h2 : ms.toMems with
         | error x => rw [h2] at ih; rw [← ih]; rfl
         | ok mems =>
-          rw [h2] at ih
+          rw [h2] at ih hm2
           rw [← ih]
-          obtain ⟨l, hl, _⟩ := unionLayout_total p a0 mems ha2
+          obtain ⟨l, hl, _⟩ := unionLayout_total p a0 mems ha2 (fun m hm => (hm2 m hm).1.2)
           simp only [bind, Except.bind, hl, liftFail]
           rfl
   theorem eval_isOk : ∀ (as : Aligns) (acc : Int), isOk (as.eval acc) = as.accepted
     | .nil, _ => rfl
     | .const n rest, acc => by
       simp only [Aligns.eval, Aligns.accepted]
-      exact eval_isOk rest _
+      by_cases hb : alignasConstBad n = true
+      · rw [if_pos hb]
+        rw [alignasConstBad_eq] at hb
+        have : (n == 0 || pow2le28 n) = false := by
+          cases hc : (n == 0 || pow2le28 n) with
+          | false => rfl
+          | true =>
+            have := (alignedAttrBad_iff n).2 (by simpa using hc)
+            rw [this] at hb; cases hb
+        rw [this]; rfl
+      · rw [if_neg hb]
+        have hb' : alignedAttrBad n = false := by rw [← alignasConstBad_eq]; simpa using hb
+        have : (n == 0 || pow2le28 n) = true := by simpa using (alignedAttrBad_iff n).1 hb'
+        rw [this, Bool.true_and]
+        exact eval_isOk rest _
     | .type t rest, acc => by
       have ih := sizeAlign_isOk t
       simp only [Aligns.eval, Aligns.accepted]
@@ -584,6 +692,7 @@ theorem layout_isOk (t : Ty) : isOk t.layout = t.accepted := by
     have ih := toMems_isOk ms
     have ha := alignAttr_isOk ((STRUCT_INIT_ALIGN : Nat) : Int) al
     have ha2 := Outcome.of_alignAttr al
+    have hm2 := toMems_inv ms
     simp only [Ty.layout, Ty.accepted]
     cases h1 : alignAttr ((STRUCT_INIT_ALIGN : Nat) : Int) al with
     | error x => rw [h1] at ha; rw [← ha]; rfl
@@ -593,9 +702,9 @@ theorem layout_isOk (t : Ty) : isOk t.layout = t.accepted := by
       cases h2 : ms.toMems with
       | error x => rw [h2] at ih; rw [← ih]; rfl
       | ok mems =>
-        rw [h2] at ih
+        rw [h2] at ih hm2
         rw [← ih]
-        obtain ⟨l, hl, _⟩ := unionLayout_total p a0 mems ha2
+        obtain ⟨l, hl, _⟩ := unionLayout_total p a0 mems ha2 (fun m hm => (hm2 m hm).1.2)
         simp only [bind, Except.bind, hl, liftFail]
         rfl
   | prim t => rfl
